@@ -18,14 +18,6 @@ theorem win_of_window (inp : Bytes) (abs len : Nat) (h : abs + len ≤ inp.lengt
 theorem window_length (inp : Bytes) (abs len : Nat) (h : abs + len ≤ inp.length) : (window inp abs len).length = len := by
   unfold window; simp; omega
 
-theorem spansFrom_append (o : Nat) (a b : List Bytes) :
-    spansFrom o (a ++ b) = spansFrom o a ++ spansFrom (o + a.flatten.length) b := by
-  induction a generalizing o with
-  | nil => simp [spansFrom]
-  | cons x xs ih =>
-    simp only [List.cons_append, spansFrom, List.flatten_cons, List.length_append]
-    rw [ih, Nat.add_assoc]
-
 theorem stepLines_from (t : Nat) (buf : Bytes) (p : Nat) (hp : p ≤ buf.length) :
     stepLines t buf p buf.length = spansFrom p (splitLines t (buf.drop p)) := by
   rw [stepLines_region t buf p buf.length hp (Nat.le_refl _)]
